@@ -71,6 +71,10 @@ Proof. intros H ->. eapply inv_set_d, H. Qed.
   (eapply inv_set_f'; [ | first [reflexivity | eapply inv_f]]) : fl.
 #[export] Hint Extern 1 (inv _ _ (set st_dropping _ _)) =>
   (eapply inv_set_d'; [ | first [reflexivity | eapply inv_d]]) : fl.
+Lemma inv_set_exec_flags K t g m :
+  inv (flagsA K) t m -> inv (flagsA K) t (m <| st_exec ::= g |>).
+Proof. intros [H1 H2]. split; [exact H1 | exact H2]. Qed.
+#[export] Hint Extern 1 (inv (flagsA _) _ (set st_exec _ _)) => (apply inv_set_exec_flags) : fl.
 #[export] Hint Extern 1 (tq _ _) => tqs : fl.
 #[export] Hint Extern 2 (inv _ _ (fold_left _ _ _)) => (apply inv_fold; [intros | ]) : fl.
 #[export] Hint Extern 2 (res _ _ (unwinding _ _)) => (apply res_unwinding; [intros | ]) : fl.
